@@ -179,6 +179,9 @@ func VerifC11Propose() {
 			verifAssert("proposals-strictly-increase", k > verifConsultLog[i-1])
 		}
 	}
+	// a key is handed out exactly when the jury approved the last proposal
+	lastApproved := len(verifConsultLog) > 0 && tr.answers[verifConsultLog[len(verifConsultLog)-1]]
+	verifAssert("propose-succeeds-iff-last-proposal-approved", (err == nil) == lastApproved)
 	if err == nil {
 		verifAssert("returned-key-was-consulted-last", len(verifConsultLog) > 0 && verifConsultLog[len(verifConsultLog)-1] == res.Key)
 		verifAssert("returned-key-above-snapshot", res.Key > maxKey)
